@@ -49,6 +49,6 @@ for d in sorted(glob.glob(os.path.join(src, "C??-m?"))):
     if special:
         meta["confirmed_by_me"]["note"] = special
     if os.path.exists(os.path.join(d, "patch.orig.diff")):
-        meta["note"] = "patch.diff is the same change ported by hand to the repaired tree (the original, patch.orig.diff, was written against bucket.rs before the fix: commits)"
+        meta["note"] = "patch.diff is the same change ported by hand to the repaired tree (the original, patch.orig.diff, was written before a later fix: commit touched the same lines)"
     json.dump(meta, open(os.path.join(out, "meta.json"), "w"), indent=1)
     print("imported", name)
